@@ -218,6 +218,7 @@ def gen_cases(tier, seed):
         cases.append({"op": "marginal", "spec": spec_for([None, 0]), "dim": 1, "sub": int(rng.integers(1 << 31)), "q": float(rng.uniform(0.1, 0.9)), "cost": 8})
         cases.append({"op": "marginal-icdf", "spec": spec_for([None, 0]), "dim": 1, "sub": int(rng.integers(1 << 31)), "cost": 2})
         cases.append({"op": "marginal-icdf", "spec": spec_for([None, 0, 1]), "dim": 2, "sub": int(rng.integers(1 << 31)), "cost": 2})
+        cases.append({"op": "marginal-icdf-history", "spec": spec_for([None, 0]), "spec2": spec_for([None, 0]), "dim": 1, "sub": int(rng.integers(1 << 31)), "cost": 3})
     # 3-D marginals: every structure in which the variable is conditional (dims 1 and 2), one point each
     n3 = 1 if tier == "quick" else 6
     for r in range(n3):
@@ -341,6 +342,29 @@ def run_case(case, ctx):
                 back = np.asarray(model.marginal_cdf(got[:2], j), float)
                 ctx.check("c06.marginal-roundtrip", bool(np.all(np.abs(back - p[:2]) <= eps + 1e-5)), "marginal_cdf(marginal_icdf(p)) differs from p beyond Monte-Carlo / quadrature error", got=back, want=p[:2], eps=eps, **info)
             ctx.sample = {"op": op, **info, "dim": j, "p": p.tolist(), "x": got.tolist(), "n_mc": n}
+        elif op == "marginal-icdf-history":
+            # history: quantile of model A, then the SAME object gets the parameters of another model (what a re-fit
+            # does), then the quantile again - it must be the quantile of the new parameters
+            from virocon import GlobalHierarchicalModel
+
+            j = case["dim"]
+            p = np.array([0.5, 0.9])
+            first = np.asarray(model.marginal_icdf(p, j), float)
+            spec2 = case["spec2"]
+            donor = S.build_virocon(spec2)
+            model.distributions[0] = donor.distributions[0]
+            model.distributions[1] = donor.distributions[1]
+            ref2 = S.RefModel(spec2)
+            got = np.asarray(model.marginal_icdf(p, j), float)
+            n = 100000
+            eps = stats.dkw_eps(n)
+            ok, wit = True, None
+            for pi, xi in zip(p, got):
+                Fx, err = ref_marginal(ref2, j, float(xi), "cdf")
+                if abs(Fx - pi) > eps + 1e-6 + 10 * err:
+                    ok, wit = False, {"p": float(pi), "x": float(xi), "reference_cdf_of_the_current_parameters_at_x": Fx, "first_call_returned": first.tolist()}
+            ctx.check("c06.marginal-icdf", ok, "marginal_icdf after the model's parameters changed is not a quantile of the current model (stale Monte-Carlo state)", witness=wit, dim=j, **info)
+            ctx.sample = {"op": op, **info, "p": p.tolist(), "before": first.tolist(), "after": got.tolist()}
         elif op == "total-mass":
             lims = [[0, float(ref.dim_range(i, eps=1e-12)[1])] for i in range(d)]
             val, err = integrate.nquad(lambda *a: float(model.pdf(np.array(a).reshape(1, d))[0]), lims, opts={"epsabs": 1e-8, "epsrel": 1e-7, "limit": 60})
